@@ -202,6 +202,10 @@ class Slicer:
                 # project through known aggregates
                 if t[0] == "agg" and t[1] in ("tuple",) and e["f"] < len(t[2]):
                     t = t[2][e["f"]]
+                elif t[0] == "downcast" and t[1][0] == "agg" and t[1][1].rsplit("::", 1)[-1] == t[2] and e["f"] < len(t[1][2]) \
+                        and t[1][1].split("::")[0] in ("core", "std", "alloc"):
+                    # the payload of an Option/Result built in place and matched right away: (Some{x} as Some).0 is x
+                    t = t[1][2][e["f"]]
                 else:
                     of = e.get("of", "")
                     n = e["n"]
